@@ -61,7 +61,11 @@ func (c *checkSchema) checkType(name string, typ ischema.Type, ss map[string]isc
 		if jErr, ok := r.(kit.JSchemaError); ok {
 			jErr.SetFile(typ.RootFile)
 			jErr.SetIndex(bytes.Index(jErr.Index()) + typ.Begin)
-			jErr.SetIncorrectUserType(name)
+			if len(name) != 0 && name[0] != '#' {
+				// The generated name of an unnamed type (a set of rules inside
+				// the "or" rule) means nothing to the user.
+				jErr.SetIncorrectUserType(name)
+			}
 			panic(jErr)
 		}
 
